@@ -197,12 +197,17 @@ def gen_cases(tier, seed):
                 if tier == 'quick':
                     types = rng.sample(all_types, 60)
                     for must in (2, 3, 4, 5, 6, 21, 50, 52, 80, 90, 94):
-                        if must not in types and rng.random() < 0.6:
+                        if must not in types:
                             types.append(must)
                 else:
                     types = all_types
                 for t in types:
                     forms = [rng.choice(FORMS)] if tier == 'quick' else FORMS
+                    if tier == 'quick' and t in (5, 6, 50, 52, 80, 90) and \
+                            'min' not in forms:
+                        # the messages that would *do* something if they were
+                        # accepted always go in well-formed as well
+                        forms = forms + ['min']
                     for f in forms:
                         cases.append({'kind': 'endpoint', 'role': role,
                                       'pos': pos, 'type': t, 'form': f,
@@ -224,6 +229,12 @@ def gen_cases(tier, seed):
         cases.append({'kind': 'success',
                       'when': ['with_accept', 'after_failure_idle',
                                'before_accept', 'double'][i % 4],
+                      'chunk': rng.choice(['all', 'record', 'random']),
+                      'cseed': rng.randrange(1 << 30)})
+    # strict KEX also restarts the sequence numbers at every later NEWKEYS
+    for i in range(6 if tier == 'quick' else 60):
+        cases.append({'kind': 'seqreset_rekey',
+                      'initiator': ['ref', 'asyncssh'][i % 2],
                       'chunk': rng.choice(['all', 'record', 'random']),
                       'cseed': rng.randrange(1 << 30)})
     # method continuation messages (60..79) with no request outstanding:
@@ -602,7 +613,19 @@ def _run_endpoint(case, mon, viol):
 
     if oop:
         mon['oop_judged'] += 1
-        if ended:
+        took = [x for x in replies if x in (5, 6) or 50 <= x <= 100] \
+            if pos in K_POS else []
+        if took:
+            # even if the connection ended later: before the first key
+            # exchange was complete the peer got a service / authentication /
+            # connection-layer answer, i.e. the injected message was acted on
+            viol.append({
+                'mechanism': 'out_of_phase_message_answered',
+                'detail': f'role={role} pos={pos} type={t} form='
+                          f'{case["form"]} strict={strict}: asyncssh '
+                          f'replied with message types {took} during the '
+                          f'initial key exchange (ended={ended})'})
+        elif ended:
             mon['ended'] += 1
         else:
             bad = [x for x in replies if x not in (R.MSG_UNIMPLEMENTED,
@@ -931,6 +954,87 @@ def _run_success(case, mon, viol):
     return out
 
 
+def _run_seqreset_rekey(case, mon, viol):
+    """Strict KEX, authenticated session, then a re-exchange: the reference
+       peer restarts both counters at NEWKEYS as the extension prescribes;
+       asyncssh's packets must verify under that and it must accept ours"""
+
+    info = {}
+
+    async def echo(process):
+        data = await process.stdin.read()
+        process.stdout.write(data)
+        process.exit(0)
+
+    async def main(loop):
+        opts = dict(process_factory=echo, encoding=None)
+        if case['initiator'] == 'asyncssh':
+            opts['rekey_bytes'] = 2000
+        async with scen.Env(loop, server_factory=lambda: apps.RecServer(
+                apps.EventLog()), chunking=case['chunk'],
+                seed=case['cseed'], server_opts=opts) as env:
+            peer = await hostile.ref_client(env.wire, strict=True)
+            ch = await hostile.ref_client_exec(peer)
+            sent = bytearray()
+            got = bytearray()
+            rekeys = 0
+            for i in range(12):
+                piece = apps.stream_bytes(('c06rk', i), 400)
+                peer.send(peer.channel_data(ch['remote_id'], piece))
+                sent += piece
+                await env.settle()
+                ki = None
+                while not peer.queue.empty():
+                    it = peer.queue.get_nowait()
+                    if it[0] in ('lost', 'eof', 'error'):
+                        peer.queue.put_nowait(it)
+                        break
+                    if it[0] == 'packet' and it[2][0] == R.MSG_KEXINIT:
+                        ki = it[2]
+                if peer.closed:
+                    break
+                if ki is not None:
+                    await peer.kex(peer_kexinit=ki)
+                    rekeys += 1
+                elif case['initiator'] == 'ref' and i in (3, 7):
+                    await peer.kex()
+                    rekeys += 1
+            if not peer.closed:
+                peer.send(bytes([R.MSG_CHANNEL_EOF]) +
+                          R.u32(ch['remote_id']))
+                while True:
+                    p = await peer.recv()
+                    if p[0] == R.MSG_CHANNEL_DATA:
+                        r = R.Reader(p, 1)
+                        r.u32()
+                        got += r.str()
+                    elif p[0] == R.MSG_KEXINIT:
+                        await peer.kex(peer_kexinit=p)
+                        rekeys += 1
+                    elif p[0] == R.MSG_CHANNEL_CLOSE:
+                        break
+            mon['seqreset_checked'] += 1
+            mon['injected'] += 1
+            info.update(rekeys=rekeys, strict=peer.strict,
+                        closed=peer.closed)
+            for v in peer.violations:
+                viol.append({'mechanism': 'wire_format', 'detail': v})
+            if peer.strict and rekeys and bytes(got) != bytes(sent):
+                viol.append({
+                    'mechanism': 'sequence_not_reset_at_rekey',
+                    'detail': f'after {rekeys} strict re-exchange(s) the '
+                              f'echo came back {len(got)} of {len(sent)} '
+                              f'bytes'})
+            peer.close()
+            await env.settle()
+            for ev in env.san.drain():
+                viol.append({'mechanism': 'sanitizer_' + ev['kind'],
+                             'detail': ev})
+
+    scen.run(main)
+    return info
+
+
 def _run_stale(case, mon, viol):
     """A keyboard-interactive INFO_RESPONSE with the right answer, sent when
        no request is waiting for it, must never authenticate anybody"""
@@ -1064,10 +1168,19 @@ def run_case(case):
             info = _run_terrapin(case, mon, viol)
         elif case['kind'] == 'stale':
             info = _run_stale(case, mon, viol)
+        elif case['kind'] == 'seqreset_rekey':
+            info = _run_seqreset_rekey(case, mon, viol)
         else:
             info = _run_success(case, mon, viol)
     except vloop.QuiescentHang as exc:
         viol.append({'mechanism': 'hang', 'detail': str(exc)})
+    except (R.RefError, refpeer.PeerClosed) as exc:
+        if case['kind'] == 'seqreset_rekey':
+            mon['seqreset_checked'] += 1
+            viol.append({'mechanism': 'sequence_not_reset_at_rekey',
+                         'detail': f'reference peer: {exc!r:.200}'})
+        else:
+            raise
 
     nontrivial = sum(mon.values()) > 0
     res = {'mon': mon, 'sig': signature(case) if nontrivial else None,
